@@ -14,6 +14,7 @@ import Driver.MeasHandlers
 import Driver.TxnHandlers
 import Driver.BudHandlers
 import Driver.SerdeHandlers
+import Driver.FlipWalk
 open DM
 
 def optIntTok : Option Int → String
@@ -128,6 +129,7 @@ def dispatch (c : Case) : Res :=
   | "ord" => runOrd c
   | "ded" => runDed c
   | "sdoc" => runSDoc c
+  | "flipw" => runFlipW c
   | k => { status := "DISAGREE", detail := s!"unknown case kind {k}" }
 
 partial def readAll (h : IO.FS.Stream) (acc : Array String) : IO (Array String) := do
